@@ -59,7 +59,7 @@ SampleAt(j) ==
       sel  == Selectors[1 + PrngNat(K("ssel", r), Len(Selectors))]
       acct == AcctOf(mn, Src(PrngNat(K("s1", r), 2)), pw, IF pw = "" /\ PrngNat(K("s2", r), 2) = 0 THEN "none" ELSE Src(PrngNat(K("s3", r), 2)),
                      sel, Src(PrngNat(K("s4", r), 2)))
-      cmd  == Form(1 + (j % 13), acct, IF PrngNat(K("s5", r), 2) = 0 THEN "file" ELSE "stdin", r)
+      cmd  == Form(1 + (j % 13), acct, ChanNo(PrngNat(K("s5", r), 4)), r)
   IN  \* every fourth sample runs under the ambient environment
       IF j % 4 = 0 THEN AItem("sample_ambient_env", cmd) ELSE CItem("sample", cmd)
 
@@ -146,13 +146,25 @@ ChunkedAt(j) ==
       c    == IF f = 10 THEN c0 ELSE [c0 EXCEPT !.inp = [hex |-> BytesToHex([i \in 1..size |-> (i * 17 + j) % 256])]]
   IN  [i |-> 0, op |-> "cli", fam |-> "chunked_stdin", in |-> CliIn(c) @@ [stdin_chunks |-> plan]]
 
+\* ---- H: content with prefixes / suffixes that text tools treat specially x the four input channels ----------
+\* (hash data, hash message, sign message: the input is raw bytes, every byte counts)
+MagicForms == <<13, 9, 4>>
+NMagicItems == NMagicContents * 3 * (IF Thorough THEN 4 ELSE 1)
+MagicAt(j) ==
+  LET k  == (j - 1) % NMagicContents
+      f  == ((j - 1) \div NMagicContents) % 3
+      ch == (j - 1) \div (3 * NMagicContents)                 \* thorough: every channel; quick: channels rotate
+      c0 == Form(MagicForms[f + 1], PlainAcct(Mn2), ChanNo(k + f + ch), <<78, j>>)
+  IN  CItem("magic_content", [c0 EXCEPT !.inp = [hex |-> BytesToHex(MagicContent(k))]])
+
 O1 == NSample
 O2 == O1 + NLattice
 O3 == O2 + 3 * NSessions
 O4 == O3 + NBad
 O5 == O4 + NBig
 O6 == O5 + NZeroKey
-Count == O6 + NChunked
+O7 == O6 + NChunked
+Count == O7 + NMagicItems
 ItemAt(g) ==
   IF g <= O1 THEN SampleAt(g)
   ELSE IF g <= O2 THEN LatticeAt(g - O1)
@@ -160,7 +172,8 @@ ItemAt(g) ==
   ELSE IF g <= O4 THEN BadAt(g - O3)
   ELSE IF g <= O5 THEN BigAt(g - O4)
   ELSE IF g <= O6 THEN ZeroKeyAt(g - O5)
-  ELSE ChunkedAt(g - O6)
+  ELSE IF g <= O7 THEN ChunkedAt(g - O6)
+  ELSE MagicAt(g - O7)
 VARIABLE n
 INSTANCE GenBase
 =============================================================================
